@@ -158,13 +158,17 @@ type schedResult struct {
 	verdicts09 []verdict
 	trace      []string
 	refused    int
+	unsavedKeys int
 	stateHash  string
 	winners    string
 }
 
 // runSchedule executes one schedule of cell c chosen by d. Must run inside a bubble.
+// schedBackend is the metastore back end of the schedules that follow (see world.Backends).
+var schedBackend = "memory"
+
 func runSchedule(c schedCell, d *sched.DFS) (res schedResult) {
-	e := &env{w: world.New("memguard"), cfg: cfgOf("simple")}
+	e := &env{w: world.NewOn("memguard", schedBackend), cfg: cfgOf("simple")}
 	defer e.w.Close()
 	reresolved := map[string]bool{}
 	probe.SetHookSink(func(point string, arg any) {
@@ -300,6 +304,33 @@ func runSchedule(c schedCell, d *sched.DFS) (res schedResult) {
 		}
 	}
 	synctest.Wait()
+	// C14, "a process whose insert is refused discards its unsaved key": the generated keys whose wrapped form was
+	// refused by the metastore are identified through the AEAD/KMS monitors; their secrets must be closed by now
+	refused := map[[32]byte]bool{} // hash of the wrapped key in a refused insert
+	for _, mc := range e.w.MS.CallsFrom(msFrom) {
+		if mc.Op == "store" && !mc.OK && mc.Fault == "" && mc.In != nil {
+			refused[sha256.Sum256(mc.In.EncryptedKey)] = true
+		}
+	}
+	unsaved := map[[32]byte]bool{} // hash of the plaintext of such a key
+	for _, ac := range e.w.AEAD.CallsFrom(0) {
+		if ac.Op == 'E' && ac.OK && refused[ac.Cipher] {
+			unsaved[ac.PlainFull] = true
+		}
+	}
+	for _, kc := range e.w.KMS.Calls() {
+		if kc.Op == "encrypt" && kc.Err == "" && refused[sha256.Sum256(kc.Wrapped)] {
+			unsaved[kc.Full] = true
+		}
+	}
+	for _, sr := range e.w.Led.Recs() {
+		if sr.Creator == "random" && unsaved[sr.Hash] {
+			res.unsavedKeys++
+			if sr.State().CloseReturned == 0 {
+				add("unsaved-key-not-discarded", "%s is a key this cell generated whose insert was refused; it is still open after every process closed", sr)
+			}
+		}
+	}
 	for _, sr := range e.w.Led.Recs() {
 		st := sr.State()
 		switch {
@@ -342,6 +373,7 @@ func exploreSchedules(t *testing.T, r *ev.Run, prop string, cellFilter func(sche
 			r.Eval(1)
 			states[res.stateHash] = true
 			r.SetAdd("insert_winner_patterns", c.name+"|"+res.winners)
+			r.Count("unsaved_keys_of_refused_inserts_checked", int64(res.unsavedKeys))
 			if res.refused > 0 {
 				r.Distinct(c.name + "|" + strings.Join(res.trace, ","))
 				r.Count("schedules_with_refused_insert", 1)
@@ -372,8 +404,8 @@ func exploreSchedules(t *testing.T, r *ev.Run, prop string, cellFilter func(sche
 				break
 			}
 		}
-		r.Count("schedules:"+c.name, int64(n))
-		r.Count("distinct_final_store_states:"+c.name, int64(len(states)))
+		r.Count("schedules:"+schedBackend+":"+c.name, int64(n))
+		r.Count("distinct_final_store_states:"+schedBackend+":"+c.name, int64(len(states)))
 	}
 	r.Exhaustive(exhaustive)
 	_ = rand.Int
@@ -387,5 +419,14 @@ func TestC14(t *testing.T) {
 	exploreSchedules(t, r, "C14", func(c schedCell) bool {
 		return ev.Thorough() || (c.sample == 0 && (c.nproc == 2 || c.name == "cold-3proc"))
 	}, max, false)
+	// the racing-creator cells once more end to end over the DynamoDB plug-ins: "whichever of them wins each insert"
+	// is then decided by the plug-in's conditional put
+	for _, be := range []string{"dynamodb-v1", "dynamodb-v2"} {
+		schedBackend = be
+		exploreSchedules(t, r, "C14", func(c schedCell) bool {
+			return c.sample == 0 && c.nproc == 2 && (c.name == "cold" || c.name == "both-expired" || c.name == "ik-revoked" || ev.Thorough())
+		}, ev.Pick(120, 4000), false)
+		schedBackend = "memory"
+	}
 	r.Finish(t)
 }
